@@ -141,6 +141,9 @@ func runClosure(t *testing.T, id string) {
 		return
 	}
 	for _, u := range closureUniverses {
+		if u.thorough && *flagTier != "thorough" {
+			continue
+		}
 		kind := MustKind(u.kind)
 		if !closureApplies(id, kind) {
 			continue
